@@ -415,14 +415,14 @@ theorem C06_pop_lognormal_scored (mu sigma x : ℝ) (hs : 0 < sigma) (hx : 0 < x
 theorem C06_truncGauss_scored (mu sigma x : ℝ) (hs : 0 < sigma)
     (hΦ : normCdf (-mu / sigma) = Phi (-mu / sigma)) :
     (0 ≤ x → popLL .trunc 1 1 (th1 mu sigma) (fun _ _ => x)
-      = .val (Real.log (truncGaussPDF mu sigma x)))
+      = .val (Real.log (c06TruncGaussPDF mu sigma x)))
     ∧ (x < 0 → popLL .trunc 1 1 (th1 mu sigma) (fun _ _ => x) = .negInf) := by
   constructor
   · intro hx
     have h1 : ¬ sigma ≤ 0 := not_le.mpr hs
     have h2 : ¬ x < 0 := not_lt.mpr hx
     have hc := one_sub_Phi_pos (-mu / sigma)
-    unfold truncGaussPDF
+    unfold c06TruncGaussPDF
     rw [Real.log_div (gaussianPDFReal_pos _ _ _ (sqv_ne_zero hs.ne')).ne' hc.ne']
     simp only [popLL, iany2, iany, isum2, isum_eq, th1]
     simp [h1, h2, sqv, log_gaussianPDFReal mu sigma _ hs, hΦ]
@@ -498,10 +498,10 @@ theorem C06_truncGauss_request (nIds nDim rows : Nat) (th : Nat → Nat → ℝ)
 theorem C06_truncGauss_density (mu sigma : ℝ) (hs : 0 < sigma) :
     cond (gaussianReal mu (sqv sigma)) (Set.Ici 0)
       = (volume.restrict (Set.Ici 0)).withDensity
-          (fun x => ENNReal.ofReal (truncGaussPDF mu sigma x)) := by
+          (fun x => ENNReal.ofReal (c06TruncGaussPDF mu sigma x)) := by
   have hv := sqv_ne_zero hs.ne'
   have hpos := one_sub_Phi_pos (-mu / sigma)
-  unfold ProbabilityTheory.cond truncGaussPDF
+  unfold ProbabilityTheory.cond c06TruncGaussPDF
   rw [gaussianReal_Ici_zero mu sigma hs, gaussianReal_of_var_ne_zero _ hv,
     restrict_withDensity measurableSet_Ici]
   generalize 1 - Phi (-mu / sigma) = c at hpos
@@ -904,10 +904,10 @@ theorem C06_lognormal_moments (mu sigma : ℝ) (hs : 0 < sigma) :
     the scored (documented) truncated-Gaussian density; `norm.pdf`, `norm.cdf` are the standard normal
     pdf and cdf -/
 theorem C06_truncGauss_moments (mu sigma : ℝ) (hs : 0 < sigma) :
-    (∫ x in Set.Ici (0:ℝ), x * truncGaussPDF mu sigma x
+    (∫ x in Set.Ici (0:ℝ), x * c06TruncGaussPDF mu sigma x
         = tgMean (gaussianPDFReal 0 1) Phi mu sigma)
     ∧ (∫ x in Set.Ici (0:ℝ), (x - tgMean (gaussianPDFReal 0 1) Phi mu sigma) ^ 2
-          * truncGaussPDF mu sigma x
+          * c06TruncGaussPDF mu sigma x
         = tgStd (gaussianPDFReal 0 1) Phi mu sigma ^ 2) := by
   have hv := sqv_ne_zero hs.ne'
   have hc := one_sub_Phi_pos (-mu / sigma)
@@ -935,25 +935,25 @@ theorem C06_truncGauss_moments (mu sigma : ℝ) (hs : 0 < sigma) :
     simp [tgLambda, hph, hcdef]
   have hM : tgMean (gaussianPDFReal 0 1) Phi mu sigma = mu + sigma * (ph / c) := by
     simp [tgMean, hlam]
-  have e1 : ∫ x in Set.Ici (0:ℝ), x * truncGaussPDF mu sigma x = mu + sigma * (ph / c) := by
+  have e1 : ∫ x in Set.Ici (0:ℝ), x * c06TruncGaussPDF mu sigma x = mu + sigma * (ph / c) := by
     rw [integral_Ici_eq_integral_Ioi]
-    have : ∀ x, x * truncGaussPDF mu sigma x
+    have : ∀ x, x * c06TruncGaussPDF mu sigma x
         = c⁻¹ * ((x - mu) * gaussianPDFReal mu (sqv sigma) x)
           + c⁻¹ * mu * gaussianPDFReal mu (sqv sigma) x := by
-      intro x; simp only [truncGaussPDF, ← hcdef]; field_simp; ring
+      intro x; simp only [c06TruncGaussPDF, ← hcdef]; field_simp; ring
     simp_rw [this]
     rw [integral_add (i1'.const_mul _).integrableOn (i0.const_mul _).integrableOn,
       integral_const_mul, integral_const_mul, I0, I1]
     field_simp
     ring
-  have e2 : ∫ x in Set.Ici (0:ℝ), (x - (mu + sigma * (ph / c))) ^ 2 * truncGaussPDF mu sigma x
+  have e2 : ∫ x in Set.Ici (0:ℝ), (x - (mu + sigma * (ph / c))) ^ 2 * c06TruncGaussPDF mu sigma x
       = sigma ^ 2 * (1 - mu / sigma * (ph / c) - (ph / c) * (ph / c)) := by
     rw [integral_Ici_eq_integral_Ioi]
-    have : ∀ x, (x - (mu + sigma * (ph / c))) ^ 2 * truncGaussPDF mu sigma x
+    have : ∀ x, (x - (mu + sigma * (ph / c))) ^ 2 * c06TruncGaussPDF mu sigma x
         = c⁻¹ * ((x - mu) ^ 2 * gaussianPDFReal mu (sqv sigma) x)
           - (2 * sigma * (ph / c) * c⁻¹) * ((x - mu) * gaussianPDFReal mu (sqv sigma) x)
           + (sigma * (ph / c)) ^ 2 * c⁻¹ * gaussianPDFReal mu (sqv sigma) x := by
-      intro x; simp only [truncGaussPDF, ← hcdef]; field_simp; ring
+      intro x; simp only [c06TruncGaussPDF, ← hcdef]; field_simp; ring
     simp_rw [this]
     have j21 : Integrable (fun x => c⁻¹ * ((x - mu) ^ 2 * gaussianPDFReal mu (sqv sigma) x)
           - (2 * sigma * (ph / c) * c⁻¹) * ((x - mu) * gaussianPDFReal mu (sqv sigma) x))
